@@ -15,8 +15,10 @@ if [ ! -s seeded/$ID/patch.diff ]; then echo "EMPTY PATCH"; exit 3; fi
 git -C /repo apply /verif/seeded/$ID/patch.diff || { echo "PATCH DOES NOT APPLY"; exit 3; }
 ( cd /repo && timeout 900 /venv/bin/python -m pytest -q -p no:cacheprovider 2>&1 | tail -1 ) > /tmp/tests_with.log
 ( cd /repo && PYTHONPATH=/repo timeout 300 /venv/bin/python /verif/seeded/$ID/demo.py >/tmp/demo_with.log 2>&1 ); D1=$?
+cp evidence/$PROP.json /tmp/evidence_$PROP.bak 2>/dev/null   # the evidence of the unchanged tree must survive this run
 timeout 1800 ./check $PROP --tier quick > /tmp/check_with.log 2>&1; C1=$?
 git -C /repo checkout -- .
+cp /tmp/evidence_$PROP.bak evidence/$PROP.json 2>/dev/null
 echo "tests with change : $(cat /tmp/tests_with.log)"
 echo "demo without/with : exit $D0 / exit $D1"
 echo "check $PROP with change: exit $C1"
